@@ -47,6 +47,9 @@ Envs ==
     [name |-> "list", g |-> pr @@ opA @@ G1([k |-> "record", fs |-> <<F(0, P("nat")), F(1, "n1")>>]), defs |-> {"v_A"}, root |-> "v_A"],
     [name |-> "list_variant", g |-> pr @@ ("n7" :> [k |-> "record", fs |-> <<F(0, P("nat")), F(1, "v_A")>>]) @@ G1([k |-> "variant", fs |-> <<F(0, P("null")), F(1, "n7")>>]), defs |-> {"v_A"}, root |-> "v_A"],
     [name |-> "tree", g |-> pr @@ rcAA @@ veA @@ G1([k |-> "variant", fs |-> <<F(0, P("int8")), F(1, "n4")>>]), defs |-> {"v_A"}, root |-> "n2"],
+    \* a definition mentioned twice on different paths is not recursion: the leaf stays the smaller alternative
+    [name |-> "repeated_alias", g |-> pr @@ rcA @@ ("n9" :> [k |-> "record", fs |-> <<F(0, "v_B"), F(1, "v_B")>>]) @@ ("v_B" :> [k |-> "int8"])
+                                      @@ G1([k |-> "variant", fs |-> <<F(0, "n3"), F(1, "n9")>>]), defs |-> {"v_A", "v_B"}, root |-> "v_A"],
     [name |-> "rename", g |-> pr @@ G1([k |-> "alias", a |-> "v_B"]) @@ ("v_B" :> [k |-> "opt", a |-> "v_A"]), defs |-> {"v_A", "v_B"}, root |-> "v_A"],
     \* empty and empty variants
     [name |-> "empty", g |-> pr @@ G1([k |-> "empty"]), defs |-> {"v_A"}, root |-> "v_A"],
